@@ -170,9 +170,18 @@ def run_damv(ctx: Ctx) -> None:
         r = py_calls(ev, env, n)
         return r
 
-    def _src_roles(e: ast.expr) -> frozenset[str] | None:
+    from sa.srcmodel import single_assignments
+    once = single_assignments(fi.node)
+
+    def _src_roles(e: ast.expr, depth: int = 0) -> frozenset[str] | None:
         if isinstance(e, ast.Name):
-            return frozenset([roles[e.id]]) if e.id in roles else None
+            if e.id in roles:
+                return frozenset([roles[e.id]])
+            # a temporary that names a concatenation of the sets
+            if e.id in once and depth < 4 and isinstance(
+                    once[e.id], (ast.BinOp, ast.Name)):
+                return _src_roles(once[e.id], depth + 1)
+            return None
         if isinstance(e, ast.BinOp) and isinstance(e.op, ast.Add):
             a, b = _src_roles(e.left), _src_roles(e.right)
             if a is None or b is None or a & b:
@@ -201,13 +210,27 @@ def run_damv(ctx: Ctx) -> None:
                 pass
     ctx.need(cls_loop is not None, "__lb_q: classification loop")
     # ---- A. classification cascade
-    ok_range = isinstance(cls_loop.target, ast.Name) and ast.unparse(
-        cls_loop.iter).replace(" ", "") in ("range(m)",
-                                            f"range(len({ln}))")
+    from sa.srcmodel import inline_locals
     lenv = env.copy()
     iv = Poly.var("i")
+    idx_name = None
+    ok_range = False
     if isinstance(cls_loop.target, ast.Name):
-        lenv.vars[cls_loop.target.id] = iv
+        # for i in range(len(j_js))
+        idx_name = cls_loop.target.id
+        ok_range = ast.unparse(inline_locals(
+            fi.node, cls_loop.iter)).replace(" ", "") == f"range(len({ln}))"
+    elif isinstance(cls_loop.target, ast.Tuple) and len(
+            cls_loop.target.elts) == 2 and all(isinstance(
+                t, ast.Name) for t in cls_loop.target.elts):
+        # for i, l_i in enumerate(j_js)
+        idx_name = cls_loop.target.elts[0].id
+        ok_range = ast.unparse(cls_loop.iter).replace(
+            " ", "") == f"enumerate({ln})"
+        lenv.vars[cls_loop.target.elts[1].id] = Poly.atom(
+            ("cell", "J", (iv,)))
+    if idx_name is not None:
+        lenv.vars[idx_name] = iv
     chain: list[tuple[tuple, list[ast.stmt]]] = []
     problems: list[str] = []
     try:
@@ -260,9 +283,8 @@ def run_damv(ctx: Ctx) -> None:
                  and st.value.func.attr == "append" and isinstance(
                      st.value.func.value, ast.Name) and len(
                      st.value.args) == 1 and isinstance(
-                     st.value.args[0], ast.Name) and isinstance(
-                     cls_loop.target, ast.Name)
-                 and st.value.args[0].id == cls_loop.target.id]
+                     st.value.args[0], ast.Name)
+                 and st.value.args[0].id == idx_name]
         return names[0] if len(names) == 1 and len(stmts) == 1 else None
     rest_cond = None
     rest_body: list[ast.stmt] = []
@@ -564,19 +586,25 @@ def _outer(ctx: Ctx) -> None:
     wn, hn, mn = fi.params
     body = func_body(fi)
     swap = None
+    from sa.casesplit import equivalent as _equiv_vals
+    from sa.srcmodel import inline_locals
+    ev0 = make_evaluator(repo, fi, extra_call=py_calls)
+    ev0.int_transparent = True
+    Wp, Hp = Poly.var("W"), Poly.var("H")
     for s in body:
-        if isinstance(s, ast.If) and len(s.body) == 1 and isinstance(
-                s.body[0], ast.Assign) and isinstance(
-                s.body[0].targets[0], ast.Tuple):
-            t = s.body[0]
-            tg = [x.id for x in t.targets[0].elts if isinstance(x, ast.Name)]
-            vl = [x.id for x in t.value.elts if isinstance(x, ast.Name)] \
-                if isinstance(t.value, ast.Tuple) else []
-            if sorted(tg) == sorted([wn, hn]) and tg == vl[::-1]:
-                test = ast.unparse(s.test).replace(" ", "")
-                if test in (f"{hn}>{wn}", f"{wn}<{hn}", f"{hn}>={wn}",
-                            f"{wn}<={hn}"):
-                    swap = s
+        if isinstance(s, ast.If) and not s.orelse:
+            e0 = Env()
+            e0.vars.update({wn: Wp, hn: Hp})
+            try:
+                e1 = ev0.stmt(e0.copy(), s)
+            except Unsupported:
+                continue
+            # afterwards (W, H) = (max, min) of the two
+            from sa.symterm import ite as _ite
+            if _equiv_vals(e1.vars.get(wn), _ite(("lt", Wp, Hp), Hp, Wp))[
+                    0] and _equiv_vals(e1.vars.get(hn), _ite(
+                        ("lt", Wp, Hp), Wp, Hp))[0]:
+                swap = s
     ctx.ob("D3.2", fi, swap or fi.node, swap is not None,
            "the bin is brought into horizontal orientation (W >= H) first"
            if swap else "the bin is not oriented so that W >= H before "
@@ -588,17 +616,27 @@ def _outer(ctx: Ctx) -> None:
     okq = False
     for g in gens:
         if len(g.generators) == 1 and not g.generators[0].ifs:
-            it = ast.unparse(g.generators[0].iter).replace(" ", "")
-            okq = okq or it in (f"range({hn}//2+1)", f"range(({hn}//2)+1)",
-                                f"range(0,{hn}//2+1)",
-                                f"range(1+{hn}//2)")
+            it = inline_locals(fi.node, g.generators[0].iter)
+            if isinstance(it, ast.Call) and isinstance(
+                    it.func, ast.Name) and it.func.id == "range" and len(
+                    it.args) in (1, 2) and not it.keywords:
+                e0 = Env()
+                e0.vars[hn] = Hp
+                try:
+                    vals = [ev0.num(e0, a_) for a_ in it.args]
+                except Unsupported:
+                    continue
+                lo_ = ZERO if len(vals) == 1 else vals[0]
+                okq = okq or (lo_ == ZERO and vals[-1] == fd(
+                    Hp, Poly.const(2)) + ONE)
     okm = any(isinstance(n, ast.Call) and isinstance(
         n.func, ast.Name) and n.func.id == "max" and gens and any(
         a is gens[0] for a in n.args) for n in ast.walk(fi.node))
     rets = [r for r in ast.walk(fi.node) if isinstance(r, ast.Return)]
     ok1 = len(rets) == 1 and isinstance(
         rets[0].value, ast.Call) and ast.unparse(
-        rets[0].value.func) == "max" and {
+        rets[0].value.func) == "max" and len(
+        rets[0].value.args) == 2 and {
         ast.unparse(a) for a in rets[0].value.args} & {"1"} == {"1"}
     ctx.ob("D3.2", fi, fi.node, okq and okm and ok1,
            "the bound is max(1, max over q = 0..floor(H/2) of L(q))"
@@ -640,12 +678,21 @@ def _outer(ctx: Ctx) -> None:
 def _cutsq(ctx: Ctx, cq: FuncInfo) -> None:
     """CUTSQ: w >= h; k = w // h squares of side h; (w, h) := (h, w - k h)."""
     repo = ctx.repo
-    ev = make_evaluator(repo, cq, extra_call=py_calls)
+
+    def calls(ev_: Evaluator, env_: Env, n: ast.Call) -> Any:
+        if isinstance(n.func, ast.Name) and n.func.id == "divmod" and len(
+                n.args) == 2 and not n.keywords:
+            a_, b_ = ev_.num(env_, n.args[0]), ev_.num(env_, n.args[1])
+            return (fd(a_, b_), a_ - fd(a_, b_) * b_)
+        return py_calls(ev_, env_, n)
+    ev = make_evaluator(repo, cq, extra_call=calls)
     ev.int_transparent = True
     loop = next((s for s in func_body(cq) if isinstance(s, ast.For)), None)
     ctx.need(loop is not None, "__cutsq: loop over the items")
     wl = next((s for s in loop.body if isinstance(s, ast.While)), None)
     problems = []
+    wn_ = hn_ = None
+    piece_buf = None          # the list that receives the squares of an item
     if wl is None:
         problems.append("no cutting loop")
     else:
@@ -653,7 +700,8 @@ def _cutsq(ctx: Ctx, cq: FuncInfo) -> None:
         # discover the two dimension variables: the ones re-assigned together
         pair = next((s for s in wl.body if isinstance(s, ast.Assign)
                      and isinstance(s.targets[0], ast.Tuple)
-                     and len(s.targets[0].elts) == 2), None)
+                     and len(s.targets[0].elts) == 2
+                     and isinstance(s.value, ast.Tuple)), None)
         if pair is None:
             problems.append("no simultaneous (w, h) update")
         else:
@@ -668,23 +716,57 @@ def _cutsq(ctx: Ctx, cq: FuncInfo) -> None:
                     problems.append(
                         f"cutting continues while [{show_cond(test)}], not "
                         "while h > 1")
-                k = None
+                ks: list[str] = []
                 for s in wl.body:
                     if s is pair:
                         break
-                    if _tname(s) is not None:
+                    if isinstance(s, (ast.Assign, ast.AnnAssign)) and \
+                            s.value is not None:
                         env = ev.stmt(env, s)
-                        if env.vars[_tname(s)] == fd(w, h):
-                            k = _tname(s)
+                        for t in ast.walk(s.targets[0] if isinstance(
+                                s, ast.Assign) else s.target):
+                            if isinstance(t, ast.Name) and env.vars.get(
+                                    t.id) == fd(w, h):
+                                ks.append(t.id)
+                k = ks[0] if ks else None
                 if k is None:
                     problems.append("k = w // h not computed")
-                inner = next((s for s in wl.body if isinstance(s, ast.For)),
-                             None)
-                ok_app = inner is not None and ast.unparse(
-                    inner.iter).replace(" ", "") == f"range({k})" and \
-                    len(inner.body) == 1 and ast.unparse(
-                    inner.body[0]).replace(" ", "").endswith(
-                    f".append({hn_})")
+                # k squares of side h: `for _ in range(k): buf.append(h)`,
+                # `buf.extend([h] * k)` or `buf += [h] * k`
+                ok_app = False
+                for s in wl.body:
+                    if isinstance(s, ast.For) and k is not None and \
+                            ast.unparse(s.iter).replace(
+                            " ", "") == f"range({k})" and len(
+                            s.body) == 1 and isinstance(
+                            s.body[0], ast.Expr) and isinstance(
+                            s.body[0].value, ast.Call) and isinstance(
+                            s.body[0].value.func, ast.Attribute) and \
+                            s.body[0].value.func.attr == "append" and [
+                            ast.unparse(x) for x in s.body[0].value.args] \
+                            == [hn_] and isinstance(
+                            s.body[0].value.func.value, ast.Name):
+                        ok_app = True
+                        piece_buf = s.body[0].value.func.value.id
+                    rep = None
+                    if isinstance(s, ast.Expr) and isinstance(
+                            s.value, ast.Call) and isinstance(
+                            s.value.func, ast.Attribute) and \
+                            s.value.func.attr == "extend" and len(
+                            s.value.args) == 1 and isinstance(
+                            s.value.func.value, ast.Name):
+                        rep, tgt_ = s.value.args[0], s.value.func.value.id
+                    elif isinstance(s, ast.AugAssign) and isinstance(
+                            s.op, ast.Add) and isinstance(s.target, ast.Name):
+                        rep, tgt_ = s.value, s.target.id
+                    if rep is not None and isinstance(
+                            rep, ast.BinOp) and isinstance(rep.op, ast.Mult):
+                        sides = [ast.unparse(rep.left).replace(" ", ""),
+                                 ast.unparse(rep.right).replace(" ", "")]
+                        if k is not None and sorted(sides) == sorted(
+                                [f"[{hn_}]", k]):
+                            ok_app = True
+                            piece_buf = tgt_
                 if not ok_app:
                     problems.append("k squares of side h are not appended")
                 env2 = ev.stmt(env, pair)
@@ -696,10 +778,24 @@ def _cutsq(ctx: Ctx, cq: FuncInfo) -> None:
                         f"{show(env2.vars[hn_])}), not (h, w - k h)")
             except Unsupported as u:
                 problems.append(f"cannot normalise: {u}")
-            # orientation before cutting
-            orient = [s for s in loop.body if isinstance(s, ast.If)
-                      and ast.unparse(s.test).replace(" ", "") in (
-                          f"{hn_}>{wn_}", f"{wn_}<{hn_}")]
+            # orientation before cutting: afterwards (w, h) = (max, min)
+            from sa.casesplit import equivalent as _eqv
+            from sa.symterm import ite as _ite
+            orient = []
+            for s in loop.body:
+                if s is wl:
+                    break
+                if isinstance(s, ast.If) and not s.orelse:
+                    e0 = Env()
+                    e0.vars.update({wn_: w, hn_: h})
+                    try:
+                        e1 = ev.stmt(e0, s)
+                    except Unsupported:
+                        continue
+                    if _eqv(e1.vars.get(wn_), _ite(("lt", w, h), h, w))[0] \
+                            and _eqv(e1.vars.get(hn_), _ite(
+                                ("lt", w, h), w, h))[0]:
+                        orient.append(s)
             if not orient:
                 problems.append("items are not oriented (w >= h) first")
     # the dimensions come from two different columns among {0, 1}, the
@@ -723,35 +819,14 @@ def _cutsq(ctx: Ctx, cq: FuncInfo) -> None:
         problems.append("the multiplicity (column 2) is not read")
     # the squares of one item are replicated `times` times and the
     # per-item buffer starts empty for every item
-    ext = [n for n in ast.walk(loop) if isinstance(n, ast.Call) and isinstance(
-        n.func, ast.Attribute) and n.func.attr == "extend" and len(
-        n.args) == 1]
-    ok_ext = False
-    buf = None
-    if len(ext) == 1 and mult:
-        a = ext[0].args[0]
-        forms = [a]
-        if isinstance(a, ast.IfExp):
-            tst = ast.unparse(a.test).replace(" ", "")
-            if tst in (f"{mult[0]}>1", f"{mult[0]}>=1", f"{mult[0]}!=1",
-                       f"1<{mult[0]}"):
-                forms = [a.body]
-                alt = a.orelse
-                if not isinstance(alt, ast.Name):
-                    forms = []
-        for f_ in forms:
-            if isinstance(f_, ast.BinOp) and isinstance(f_.op, ast.Mult):
-                l_, r_ = ast.unparse(f_.left), ast.unparse(f_.right)
-                if mult[0] in (l_, r_):
-                    buf = r_ if l_ == mult[0] else l_
-                    ok_ext = True
-        if isinstance(a, ast.IfExp) and ok_ext and ast.unparse(
-                a.orelse) != buf:
-            ok_ext = False
+    ok_ext, buf = _replicated(loop, wl, mult[0] if mult else None)
     if not ok_ext:
         problems.append("the squares of an item are not appended "
                         "`multiplicity` times")
     elif buf is not None:
+        if piece_buf is not None and buf != piece_buf:
+            problems.append(f"the replicated list `{buf}` is not the list "
+                            f"`{piece_buf}` that receives the squares")
         fresh = any(_tname(st) == buf for st in loop.body) or any(
             isinstance(st, ast.Expr) and isinstance(
                 st.value, ast.Call) and ast.unparse(
@@ -765,3 +840,56 @@ def _cutsq(ctx: Ctx, cq: FuncInfo) -> None:
            "multiplicity replicates the squares" if not problems else
            "CUTSQ deviates: " + "; ".join(problems),
            construct="CUTSQ")
+
+
+def _replicated(loop: ast.For, wl: ast.While | None, mult: str | None) \
+        -> tuple[bool, str | None]:
+    """After the cutting loop the squares of the item are appended `mult`
+    times: `out.extend(buf * mult)`, optionally guarded by `mult > 1` (as a
+    conditional expression or as an if/else with the plain `buf`)."""
+    if mult is None or wl is None or wl not in loop.body:
+        return False, None
+    after = loop.body[loop.body.index(wl) + 1:]
+
+    def ext_arg(st: ast.stmt) -> ast.expr | None:
+        if isinstance(st, ast.Expr) and isinstance(
+                st.value, ast.Call) and isinstance(
+                st.value.func, ast.Attribute) and \
+                st.value.func.attr == "extend" and len(st.value.args) == 1:
+            return st.value.args[0]
+        return None
+
+    def times_buf(e: ast.expr) -> str | None:
+        if isinstance(e, ast.BinOp) and isinstance(e.op, ast.Mult):
+            l_, r_ = ast.unparse(e.left), ast.unparse(e.right)
+            if mult in (l_, r_) and l_ != r_:
+                return r_ if l_ == mult else l_
+        return None
+
+    def guard_ok(t: ast.expr) -> bool:
+        return ast.unparse(t).replace(" ", "") in (
+            f"{mult}>1", f"{mult}>=1", f"{mult}!=1", f"1<{mult}",
+            f"{mult}>=2", f"2<={mult}")
+    exts = [(st, ext_arg(st)) for st in after if ext_arg(st) is not None]
+    ifs = [st for st in after if isinstance(st, ast.If)]
+    if len(exts) == 1 and not any(ext_arg(x) is not None for i_ in ifs
+                                  for x in ast.walk(i_)
+                                  if isinstance(x, ast.stmt)):
+        a = exts[0][1]
+        if isinstance(a, ast.IfExp):
+            b = times_buf(a.body)
+            ok = guard_ok(a.test) and b is not None and ast.unparse(
+                a.orelse) == b
+            return ok, b
+        b = times_buf(a)
+        return b is not None, b
+    if not exts and len(ifs) == 1 and guard_ok(ifs[0].test) and len(
+            ifs[0].body) == 1 and len(ifs[0].orelse) == 1:
+        a1, a2 = ext_arg(ifs[0].body[0]), ext_arg(ifs[0].orelse[0])
+        if a1 is not None and a2 is not None:
+            b = times_buf(a1)
+            same_dst = ast.unparse(ifs[0].body[0].value.func) == \
+                ast.unparse(ifs[0].orelse[0].value.func)
+            return (b is not None and ast.unparse(a2) == b
+                    and same_dst), b
+    return False, None
